@@ -26,3 +26,4 @@ def rules(ctx):
     S.survey_residue_rules(ctx)
     S.restore_commit_rules(ctx)
     S.create_only_when_empty_rules(ctx)
+    S.flush_take_rules(ctx)
